@@ -63,23 +63,6 @@ UI_LABEL = {"A": "a", "B": "b"}
 # --------------------------------------------------------------------------- structure of a case
 
 
-def _levels(spec, lid_counter=None, parent=None, out=None):
-    """post-order list of levels: inner levels first, the root last"""
-    if out is None:
-        out, lid_counter = [], [0]
-    entry = {"spec": spec, "parent": parent, "macros": {}}
-    for nd in spec["nodes"]:
-        if nd["kind"] == "macro":
-            sub = _levels(nd["inner"], lid_counter, None, out)
-            entry["macros"][nd["gid"]] = sub
-    entry["lid"] = lid_counter[0]
-    lid_counter[0] += 1
-    out.append(entry)
-    if parent is None and len(out) and out[-1] is entry:
-        pass
-    return entry if parent is None and False else entry
-
-
 def levels_of(case):
     """[{lid, spec, macros{gid: lid}, parent (lid, gid)|None, ui{gid: k}, vlink[(gid, slot, k)], own[gids]}], root last"""
     out = []
@@ -241,7 +224,7 @@ def _out_value(n):
     from .execsim import term_str
 
     chans = list(n.outputs)
-    return term_str(chans[0].value) if chans else "ND"
+    return term_str(chans[0].value).replace("'e'", "e") if chans else "ND"
 
 
 def _snapshot(lvs, node):
@@ -261,7 +244,7 @@ def _snapshot(lvs, node):
                 "out": "*" if isinstance(n, Composite) else _out_value(n),
                 "cache": 0 if ci is None else 1,
                 "cache_val": None if ci is None or isinstance(n, Composite) else sorted(
-                    (k, term_str(v)) for k, v in ci.items()),
+                    (k, term_str(v).replace("'e'", "e")) for k, v in ci.items()),
                 "recv": recv,
                 "conn": {lab: [c.owner.label for c in ch.connections] for lab, ch in n.inputs.items()},
                 "comp": isinstance(n, Composite),
@@ -437,8 +420,8 @@ def run_impl(case):
     if kind == "checkpoint":
         node[case["ckpt"]].checkpoint = "pickle"
 
-        def save(self_, node_, filename=None, **kw):
-            orig_save(self_, node_, filename, **kw)
+        def save(self_, node=None, filename=None, **kw):  # noqa: ARG001 - keyword names as in the original
+            orig_save(self_, node=node, filename=filename, **kw)
             if not cut:
                 cut["files"] = _files()
                 cut["tokens"] = len(sched.trace)
@@ -670,7 +653,8 @@ def corr_view(case, impl):
 
 
 def _affected(case):
-    """leaves whose inputs change when the dirty nodes get new values: the dirty nodes and everything downstream"""
+    """nodes whose inputs (may) change when the dirty leaves get new values: those leaves and everything that takes
+    data from an affected node, through macro boundaries in both directions (an over-approximation)"""
     dirty = set(case.get("dirty", []))
     if not dirty:
         return set()
@@ -680,21 +664,24 @@ def _affected(case):
     while changed:
         changed = False
         for lv in lvs:
+            macro_in_affected = False
+            if lv["parent"] is not None:
+                plv, m = lvs[lv["parent"][0]], lv["parent"][1]
+                msrc = {s for sl in plv["spec"]["slots"][str(m)] for s in sl}
+                macro_in_affected = any(s in aff for s in msrc)  # "A"/"B" of the parent handled one level up
+                macro_in_affected = macro_in_affected or (("A" in msrc or "B" in msrc) and f"in{plv['lid']}" in aff)
+            if macro_in_affected and f"in{lv['lid']}" not in aff:
+                aff.add(f"in{lv['lid']}")
+                changed = True
             for nd in lv["spec"]["nodes"]:
                 g = nd["gid"]
                 if g in aff:
                     continue
                 srcs = {s for sl in lv["spec"]["slots"][str(g)] for s in sl}
                 hit = any(s in aff for s in srcs if s not in ("A", "B"))
-                # a macro with an affected node inside is affected; a node fed by an affected macro input too
+                hit = hit or (f"in{lv['lid']}" in aff and any(s in ("A", "B") for s in srcs))
                 if nd["kind"] == "macro":
-                    inner = lvs[lv["macros"][g]]
-                    hit = hit or any(x in aff for x in inner["own"])
-                if lv["parent"] is not None and any(s in ("A", "B") for s in srcs):
-                    plv = lvs[lv["parent"][0]]
-                    m = lv["parent"][1]
-                    msrc = {s for sl in plv["spec"]["slots"][str(m)] for s in sl}
-                    hit = hit or any(s in aff for s in msrc if s not in ("A", "B")) or (m in aff and False)
+                    hit = hit or any(x in aff for x in lvs[lv["macros"][g]]["own"])
                 if hit:
                     aff.add(g)
                     changed = True
